@@ -54,6 +54,8 @@ pub fn eval_prop(graph: &SymbolicAsyncGraph, proposition: &str) -> GraphColoredV
             .mk_state_variable_is_true(network_variable),
         graph.symbolic_context(),
     )
+    // do intersection with the unit bdd (static constraints, restricted domains) to be sure its valid
+    .intersect(graph.unit_colored_vertices())
 }
 
 /// Evaluate atomic sub-formula containing only a HCTL variable.
